@@ -25,6 +25,32 @@ def _all_c(*xs):
     return all(is_c(x) for x in xs)
 
 
+# ---- interval knowledge -------------------------------------------------------------------------------
+# Sound bounds of Int terms, keyed by the term text: declared ranges of inputs, and bounds derived by
+# interval arithmetic for sums / products / ite.  Comparisons fold when the intervals decide them, so
+# overflow conditions that can never hold (u32 * 10^20 < 2^128) never reach the solver.
+_BND = {}
+
+
+def set_bound(t, lo, hi):
+    if isinstance(t, str):
+        _BND[t] = (lo, hi)
+
+
+def bnd(t):
+    if isinstance(t, bool):
+        return (None, None)
+    if isinstance(t, int):
+        return (t, t)
+    return _BND.get(t, (None, None))
+
+
+def _reg(t, lo, hi):
+    if isinstance(t, str) and (lo is not None or hi is not None):
+        _BND[t] = (lo, hi)
+    return t
+
+
 def t_add(a, b):
     if _all_c(a, b):
         return a + b
@@ -32,7 +58,8 @@ def t_add(a, b):
         return b
     if b == 0 and is_c(b):
         return a
-    return f"(+ {smt(a)} {smt(b)})"
+    (al, ah), (bl, bh) = bnd(a), bnd(b)
+    return _reg(f"(+ {smt(a)} {smt(b)})", al + bl if None not in (al, bl) else None, ah + bh if None not in (ah, bh) else None)
 
 
 def t_sub(a, b):
@@ -40,13 +67,15 @@ def t_sub(a, b):
         return a - b
     if b == 0 and is_c(b):
         return a
-    return f"(- {smt(a)} {smt(b)})"
+    (al, ah), (bl, bh) = bnd(a), bnd(b)
+    return _reg(f"(- {smt(a)} {smt(b)})", al - bh if None not in (al, bh) else None, ah - bl if None not in (ah, bl) else None)
 
 
 def t_neg(a):
     if is_c(a):
         return -a
-    return f"(- {smt(a)})"
+    al, ah = bnd(a)
+    return _reg(f"(- {smt(a)})", -ah if ah is not None else None, -al if al is not None else None)
 
 
 def t_mul(a, b):
@@ -58,7 +87,14 @@ def t_mul(a, b):
                 return 0
             if x == 1:
                 return y
-    return f"(* {smt(a)} {smt(b)})"
+    (al, ah), (bl, bh) = bnd(a), bnd(b)
+    t = f"(* {smt(a)} {smt(b)})"
+    if None not in (al, ah, bl, bh):
+        ps = (al * bl, al * bh, ah * bl, ah * bh)
+        return _reg(t, min(ps), max(ps))
+    if None not in (al, bl) and al >= 0 and bl >= 0:
+        return _reg(t, al * bl, None)
+    return t
 
 
 _ITE_CONST = {}     # "(ite c a b)" with concrete a, b  ->  (c, a, b): lets t_eq fold enum-tag tests
@@ -69,6 +105,10 @@ def t_eq(a, b):
         return a == b
     if isinstance(a, str) and a == b:
         return True
+    if not isinstance(a, bool) and not isinstance(b, bool):
+        (al, ah), (bl, bh) = bnd(a), bnd(b)
+        if (ah is not None and bl is not None and ah < bl) or (al is not None and bh is not None and al > bh):
+            return False
     for x, k in ((a, b), (b, a)):
         if isinstance(x, str) and is_c(k) and not isinstance(k, bool) and x in _ITE_CONST:
             c, p, q = _ITE_CONST[x]
@@ -85,12 +125,22 @@ def t_eq(a, b):
 def t_lt(a, b):
     if _all_c(a, b):
         return a < b
+    (al, ah), (bl, bh) = bnd(a), bnd(b)
+    if ah is not None and bl is not None and ah < bl:
+        return True
+    if al is not None and bh is not None and al >= bh:
+        return False
     return f"(< {smt(a)} {smt(b)})"
 
 
 def t_le(a, b):
     if _all_c(a, b):
         return a <= b
+    (al, ah), (bl, bh) = bnd(a), bnd(b)
+    if ah is not None and bl is not None and ah <= bl:
+        return True
+    if al is not None and bh is not None and al > bh:
+        return False
     return f"(<= {smt(a)} {smt(b)})"
 
 
@@ -186,6 +236,9 @@ def t_ite(c, a, b):
         return t_not(c)
     s = f"(ite {c} {smt(a)} {smt(b)})"
     _ITE[s] = (c, a, b)
+    if not isinstance(a, bool) and not isinstance(b, bool):
+        (al, ah), (bl, bh) = bnd(a), bnd(b)
+        _reg(s, min(al, bl) if None not in (al, bl) else None, max(ah, bh) if None not in (ah, bh) else None)
     if isinstance(a, int) and isinstance(b, int) and not isinstance(a, bool) and not isinstance(b, bool):
         _ITE_CONST[s] = (c, a, b)
     return s
